@@ -342,6 +342,120 @@ fn main() {
             }
         }
     }
+    // entries of ONE size, so that a frame can fill up to the very last octet: every IPv4 / IPv6 prefix-length class (1 to 5
+    // and 1 to 17 octets per entry, 4 more with a path id), announced and withdrawn, three frames' worth
+    for (family, masks) in [(Family::IPV4, vec![0u8, 8, 16, 24, 32]), (Family::IPV6, vec![0u8, 8, 16, 32, 48, 64, 128])] {
+        for mask in masks {
+            for addpath in [false, true] {
+                for withdraw in [true, false] {
+                    cases += 1;
+                    let fams = vec![family, Family::IPV4];
+                    let per = 1 + (mask as usize).div_ceil(8) + if addpath { 4 } else { 0 };
+                    let n = 3 * 4096 / per + 7;
+                    let nlri = if family == Family::IPV4 {
+                        packet::Nlri::V4(packet::bgp::Ipv4Net { addr: std::net::Ipv4Addr::new(if mask == 0 { 0 } else { 10 }, 0, 0, 0), mask })
+                    } else {
+                        packet::Nlri::V6(packet::bgp::Ipv6Net { addr: if mask == 0 { "::".parse().unwrap() } else if mask == 8 { "2000::".parse().unwrap() } else { "2001::".parse().unwrap() }, mask })
+                    };
+                    let entries: Vec<PathNlri> = (0..n).map(|i| PathNlri { path_id: if addpath { i as u32 + 1 } else { 0 }, nlri: nlri.clone() }).collect();
+                    let case = json!({"family": samples::family_name(family), "uniform_mask": mask, "addpath": addpath, "withdraw": withdraw, "n": n});
+                    let msg = if withdraw {
+                        bgp::Message::Update(bgp::Update::Unreach { family, entries: entries.clone() })
+                    } else {
+                        bgp::Message::Update(bgp::Update::Reach { family, entries: entries.clone(), nexthop: samples::nexthop_for(family), attr: Arc::new(samples::base_attrs()) })
+                    };
+                    let (mut tx, mut rx) = samples::codec_pair(&fams, true, addpath, false, false);
+                    let mut buf = BytesMut::new();
+                    match catch_unwind(AssertUnwindSafe(|| tx.encode_to(&msg, &mut buf))) {
+                        Err(_) => {
+                            report(&mut out, "encoder_panic", "the encoder panics".into(), case.clone());
+                            continue;
+                        }
+                        Ok(Err(_)) => {
+                            report(&mut out, "encode_error", "encode_to fails although every entry fits a frame".into(), case.clone());
+                            continue;
+                        }
+                        Ok(Ok(_)) => {}
+                    }
+                    match decode_all(&mut rx, &buf, 4096) {
+                        Err(m) => report(&mut out, "frame", m, case.clone()),
+                        Ok(d) => {
+                            frames_total += d.frames.len() as u64;
+                            let got = if withdraw { &d.withdrawn } else { &d.entries };
+                            let want: Vec<(u32, packet::Nlri)> = entries.iter().map(|e| (e.path_id, e.nlri.clone())).collect();
+                            if *got != want {
+                                report(&mut out, "entries", format!("{} entries decoded for {} encoded, or other ones", got.len(), want.len()), case.clone());
+                            }
+                        }
+                    }
+                    // the splitting entry point of the monitoring encoders must produce the same frames
+                    let (mut tx2, _) = samples::codec_pair(&fams, true, addpath, false, false);
+                    match catch_unwind(AssertUnwindSafe(|| tx2.encode_each(&msg))) {
+                        Ok(Ok(frames)) => {
+                            let joined: Vec<u8> = frames.iter().flat_map(|f| f.to_vec()).collect();
+                            if joined != buf.to_vec() {
+                                report(&mut out, "frame", "encode_each writes other frames than encode_to".into(), case.clone());
+                            }
+                        }
+                        Ok(Err(_)) => report(&mut out, "encode_error", "encode_each fails although every entry fits a frame".into(), case.clone()),
+                        Err(_) => report(&mut out, "encoder_panic", "encode_each panics".into(), case.clone()),
+                    }
+                }
+            }
+        }
+    }
+    // a codec is negotiated once and lives as long as the session (or the BMP connection / MRT file): whatever it was asked to
+    // encode before - including a message that cannot be encoded at all - the next message comes out as from a fresh codec
+    {
+        let fams = vec![Family::IPV4];
+        let many: Vec<PathNlri> = (0..1500u32).map(|i| PathNlri { path_id: 0, nlri: packet::Nlri::V4(packet::bgp::Ipv4Net { addr: std::net::Ipv4Addr::from(0x0a00_0000 + (i << 8)), mask: 24 }) }).collect();
+        let reference = bgp::Message::Update(bgp::Update::Reach { family: Family::IPV4, entries: many, nexthop: samples::nexthop_for(Family::IPV4), attr: Arc::new(samples::base_attrs()) });
+        let (mut fresh, _) = samples::codec_pair(&fams, true, false, false, false);
+        let want: Vec<Vec<u8>> = fresh.encode_each(&reference).map(|v| v.iter().map(|f| f.to_vec()).collect()).unwrap_or_default();
+        let filler = |octets: usize| {
+            let mut v = samples::base_attrs();
+            let mut b = Vec::new();
+            for i in 0..(octets / 4) as u32 {
+                b.extend_from_slice(&((65001u32 << 16) | (i & 0xffff)).to_be_bytes());
+            }
+            v.push(Attribute::new_with_bin(Attribute::COMMUNITY, b).unwrap());
+            v
+        };
+        let one = vec![PathNlri { path_id: 0, nlri: samples::nlri_samples(Family::IPV4)[1].clone() }];
+        let mut caps_big = samples::capability_lists(&samples::families(), true, true, true, true).0;
+        for i in 0..12u8 {
+            caps_big.push(bgp::Capability::Unknown { code: 200 + i, bin: vec![i; 30] });
+        }
+        let before: Vec<(&str, bgp::Message)> = vec![
+            ("attributes of 5000 octets (fit an extended message only)", bgp::Message::Update(bgp::Update::Reach { family: Family::IPV4, entries: one.clone(), nexthop: samples::nexthop_for(Family::IPV4), attr: Arc::new(filler(5000)) })),
+            ("attributes of 70000 octets (fit nothing)", bgp::Message::Update(bgp::Update::Reach { family: Family::IPV4, entries: one.clone(), nexthop: samples::nexthop_for(Family::IPV4), attr: Arc::new(filler(70000)) })),
+            ("an OPEN whose capabilities exceed the one-octet length", bgp::Message::Open(bgp::Open { as_number: 65001, holdtime: bgp::HoldTime::new(90).unwrap(), router_id: 1, capability: caps_big })),
+        ];
+        for (what, first) in before {
+            for each in [true, false] {
+                cases += 1;
+                let case = json!({"family": "codec-state", "first": what, "entry_point": if each { "encode_each" } else { "encode_to" }});
+                let (mut tx, _) = samples::codec_pair(&fams, true, false, false, false);
+                let _ = catch_unwind(AssertUnwindSafe(|| {
+                    if each {
+                        let _ = tx.encode_each(&first);
+                    } else {
+                        let mut b = BytesMut::new();
+                        let _ = tx.encode_to(&first, &mut b);
+                    }
+                }));
+                match catch_unwind(AssertUnwindSafe(|| tx.encode_each(&reference))) {
+                    Ok(Ok(frames)) => {
+                        let got: Vec<Vec<u8>> = frames.iter().map(|f| f.to_vec()).collect();
+                        if got != want {
+                            report(&mut out, "codec_state", format!("after {what}, 1500 prefixes are written as {} frames (largest {} octets); a fresh codec writes {}", got.len(), got.iter().map(|f| f.len()).max().unwrap_or(0), want.len()), case);
+                        }
+                    }
+                    _ => report(&mut out, "codec_state", format!("after {what} the codec no longer encodes 1500 prefixes"), case),
+                }
+            }
+        }
+    }
     // pairs of capability sets that are NOT mirror images: each side's ADD-PATH mode 0-3 (1 = can receive, 2 = can send), each
     // side's four-octet-AS and extended-message support.  Path ids travel only when the sender may send AND the receiver may
     // receive; whatever was negotiated, the peer's codec (negotiated from the opposite side) must decode the same routes.
